@@ -286,13 +286,14 @@ pub struct HTLCOutputInCommitment { pub cltv_expiry: u32, pub offered: bool }
 //@slice R15
     let htlc_outbound = $ho:seq; if (
 //@with
-    fn htlc_is_ours_to_time_out(htlc: &HTLCOutputInCommitment, on_holder_commitment: bool) -> bool {
-        let m_holder_tx = if on_holder_commitment { $own } else { $cp1 && $cp2 };
+    fn htlc_is_ours_to_time_out(htlc: &HTLCOutputInCommitment, which_commitment: u8) -> bool {
+        // 0: our current commitment, 1: the counterparty's current one, anything else: the counterparty's previous one
+        let m_holder_tx = if which_commitment == 0 { $own } else if which_commitment == 1 { $cp1 } else { $cp2 };
         let htlc_outbound = $ho; htlc_outbound
     }
 //@ret r
 //@ensures P C08 an-htlc-counts-as-outbound-when-we-offered-it-on-our-own-commitment-or-were-offered-it-on-either-unrevoked-counterparty-commitment
-    r == (on_holder_commitment == htlc.offered),
+    r == ((which_commitment == 0) == htlc.offered),
 //@mutant counterparty_commitments_scanned_as_if_ours
     scan_commitment!(htlc_outputs.iter().map(|&(ref a, _)| a), false); } } if let Some(ref txid) = self.funding.prev_counterparty_commitment_txid
 //@with
